@@ -10,6 +10,7 @@ import SodiumModel.Model.Scalar
 import SodiumModel.Model.Scalarmult
 import SodiumModel.Model.LadderRef10
 import SodiumModel.Driver.C06
+import SodiumModel.Driver.C07Ref
 namespace Sodium.Driver.C05
 open Sodium Sodium.Model Sodium.Driver Sodium.Spec
 
@@ -148,19 +149,19 @@ def handle (op : String) (args : List String) : Option String :=
   | "sc", [o, x] => do
     let x ← ofHex x
     match o with
-    | "reduce" => some s!"0 {toHex (Model.Scalar.scalar_reduce Spec.Scalar.reduce64 x)}"
-    | "negate" => some s!"0 {toHex (Model.Scalar.scalar_negate Spec.Scalar.reduce64 x)}"
-    | "complement" => some s!"0 {toHex (Model.Scalar.scalar_complement Spec.Scalar.reduce64 x)}"
+    | "reduce" => some s!"0 {toHex (C07Ref.scalar_reduce x)}"
+    | "negate" => some s!"0 {toHex (C07Ref.scalar_negate x)}"
+    | "complement" => some s!"0 {toHex (C07Ref.scalar_complement x)}"
     | "invert" =>
-      let r := Model.Scalar.scalar_invert Spec.Scalar.invert x
+      let r := C07Ref.scalar_invert x
       some s!"{r.1.toInt} {toHex r.2}"
     | _ => none
   | "sc", [o, x, y] => do
     let x ← ofHex x; let y ← ofHex y
     match o with
-    | "mul" => some s!"0 {toHex (Model.Scalar.scalar_mul Spec.Scalar.mul x y)}"
-    | "add" => some s!"0 {toHex (Model.Scalar.scalar_add Spec.Scalar.reduce64 x y)}"
-    | "sub" => some s!"0 {toHex (Model.Scalar.scalar_sub Spec.Scalar.reduce64 x y)}"
+    | "mul" => some s!"0 {toHex (C07Ref.scalar_mul x y)}"
+    | "add" => some s!"0 {toHex (C07Ref.scalar_add x y)}"
+    | "sub" => some s!"0 {toHex (C07Ref.scalar_sub x y)}"
     | _ => none
   | _, _ => none
 
